@@ -152,7 +152,20 @@ def oracle(case):
 @st.composite
 def _shared_cases(draw):
     u = draw(gen.universes(special=draw(st.booleans())))
-    return {'universe': u, 'style': draw(xmlw.styles())}
+    return {'universe': u, 'style': draw(xmlw.styles()), 'bundle': draw(st.booleans())}
+
+
+def _shared_groups(case):
+    """One resource per lexicon, or (bundle) a:1 first and then ONE resource holding the extension
+    of a:1 followed by the plain lexicons that reuse its ids."""
+    docs = case['universe']['lexicons']
+    if not case.get('bundle'):
+        return [[d] for d in docs]
+    a1 = [d for d in docs if gen.spec_of(d) == 'a:1']
+    ext = [d for d in docs if gen.spec_of(d) == 'x:1']
+    later = [d for d in docs if d.get('extends') and gen.spec_of(d) != 'x:1']
+    plain = [d for d in docs if not d.get('extends') and gen.spec_of(d) != 'a:1']
+    return [g for g in (a1, ext + plain, later) if g]
 
 
 def shared_oracle(case):
@@ -162,8 +175,8 @@ def shared_oracle(case):
     d = env.new_dir('c01s')
     _current_db = env.fresh_db()
     resources = []
-    for i, doc in enumerate(u['lexicons']):
-        res = {'lmf_version': u['lmf_version'], 'lexicons': [doc]}
+    for i, group in enumerate(_shared_groups(case)):
+        res = {'lmf_version': u['lmf_version'], 'lexicons': group}
         resources.append(res)
         wn.add(xmlw.write(res, d / f'l{i}.xml', case['style'] if i % 2 == 0 else None),
                progress_handler=None)
@@ -183,6 +196,8 @@ def _shared_classify(case):
     shared = any(len(v) > 1 for v in ids.values())
     if shared:
         tags.append('ids-shared-between-lexicons')
+    if any(len(g) > 1 and g[0].get('extends') for g in _shared_groups(case)):
+        tags.append('extension-then-plain-lexicon-in-one-resource')
     return shared and 'entry' in tags and 'synset' in tags, tags
 
 
@@ -373,7 +388,8 @@ SUBS = [
         budget={'quick': 40, 'thorough': 300},
         sample=lambda c: {'lexicons': [gen.spec_of(x) for x in c['universe']['lexicons']]},
         fingerprint=lambda c: fingerprint(c['universe']),
-        require_tags=('ids-shared-between-lexicons',)),
+        require_tags=('ids-shared-between-lexicons',
+                      'extension-then-plain-lexicon-in-one-resource')),
     Sub('content-after-history', history_oracle, _history_classify,
         strategy=lambda tier: _history_cases(), budget={'quick': 25, 'thorough': 250},
         sample=lambda c: {'ops': c['ops'],
